@@ -32,6 +32,7 @@ type dcCfg struct {
 	noJitter bool
 	interior bool
 	exp      int // the whole problem scaled by 2^exp (solid, spacing): the answer must scale with it
+	shortcut bool // through the package-level shortcuts DualContour / DualContourInterior(solid, delta, repair=false, clip=true)
 }
 
 // scaledLattice is the lattice solid in units of k (a power of two, so scaling is exact)
@@ -48,7 +49,10 @@ func (s scaledLattice) Contains(c model3d.Coord3D) bool {
 
 func (c dcCfg) String() string {
 	if c.exp != 0 {
-		return fmt.Sprintf("gos=%d,rows=%d,nojitter=%v,interior=%v,scale=2^%d", c.maxGos, c.bufRows, c.noJitter, c.interior, c.exp)
+		return fmt.Sprintf("gos=%d,rows=%d,nojitter=%v,interior=%v,scale=2^%d,shortcut=%v", c.maxGos, c.bufRows, c.noJitter, c.interior, c.exp, c.shortcut)
+	}
+	if c.shortcut {
+		return fmt.Sprintf("gos=%d,rows=%d,nojitter=%v,interior=%v,shortcut", c.maxGos, c.bufRows, c.noJitter, c.interior)
 	}
 	return fmt.Sprintf("gos=%d,rows=%d,nojitter=%v,interior=%v", c.maxGos, c.bufRows, c.noJitter, c.interior)
 }
@@ -73,10 +77,17 @@ func runDC(id int, l *latticeSolid3, cfg dcCfg) dcRecord {
 		}
 		var m *model3d.Mesh
 		var pts []model3d.Coord3D
-		if cfg.interior {
+		if cfg.shortcut && cfg.interior {
+			m, pts = model3d.DualContourInterior(solid, k, false, true)
+		} else if cfg.shortcut {
+			m = model3d.DualContour(solid, k, false, true)
+		} else if cfg.interior {
 			m, pts = dc.MeshInterior()
 		} else {
 			m = dc.Mesh()
+		}
+		if cfg.shortcut {
+			cfg.noJitter = false // the shortcuts use the default jitter
 		}
 		jit := dcJitter
 		if cfg.noJitter {
@@ -148,6 +159,9 @@ func init() {
 					if strings.HasPrefix(f[4], "-") {
 						c.exp = -c.exp
 					}
+				}
+				if len(f) > 5 {
+					c.shortcut = f[5] == "1"
 				}
 				res = append(res, c)
 			}
